@@ -12,7 +12,7 @@ BLANKS = [b" ", b"\t", b"\n", b" \n ", b"\r\n", b"  ", b"\n\t"]
 OPS = [b">=", b"<=", b"<<", b">>", b"="]
 PKG = [b"foo", b"libc6", b"g++", b"lib-x.y", b"a", b"debhelper-compat", b"x2", b"python3.11"]
 ARCHN = [b"amd64", b"i386", b"linux-any", b"any-amd64", b"kfreebsd-amd64", b"any", b"musl-linux-arm64", b"hurd-i386", b"all", b"gnu-any-any"]
-QUAL = [b"any", b"native", b"amd64", b"i386", b"all"]
+QUAL = [b"any", b"native", b"amd64", b"i386", b"all", b"kfreebsd-amd64", b"linux-any", b"any-amd64", b"musl-linux-arm64", b"hurd-i386"]
 PROF = [b"nocheck", b"cross", b"stage1", b"pkg.foo.bar", b"nodoc"]
 NUMS = [b"1.0", b"2:1.0-1~rc1", b"0", b"9.20160101", b"1.0+b1", b"${source:Version}", b"1.2.3-4"]
 
